@@ -5,6 +5,7 @@ import json, os, subprocess, sys
 sys.path.insert(0, os.path.dirname(os.path.abspath(__file__)))
 from pyvc import extract
 out = []
+changed = {}
 for f in sorted(os.listdir('baseline')):
     pid = f[:-5]
     base = json.load(open(os.path.join('baseline', f)))
@@ -17,8 +18,16 @@ for f in sorted(os.listdir('baseline')):
         except Exception:
             sha = None
         if sha != rec.get('sha256'):
-            out.append(pid)
-            break
+            changed.setdefault(pid, set()).add(fn)
+if '--cover' in sys.argv:
+    # every changed function (and contract variant) is checked once: greedy cover by properties
+    todo = set().union(*changed.values()) if changed else set()
+    while todo:
+        best = max(sorted(changed), key=lambda p_: len(changed[p_] & todo))
+        out.append(best)
+        todo -= changed[best]
+else:
+    out = sorted(changed)
 d = subprocess.run(['git', '-C', extract.REPO, 'diff', '--name-only'], capture_output=True, text=True).stdout
 if ('codegen.py' in d or 'packet.py' in d or 'packet_builder.py' in d or 'fragments.py' in d) and 'C03' not in out:
     out.append('C03')
